@@ -345,6 +345,9 @@ func genC16(seed uint64, tier string, idx int) c16Data {
 		d.Kind = "args"
 		genArgs(r, &d)
 	}
+	if d.Kind != "args" && r.Bool(0.15) {
+		sc.FromFile = true // -f file equals passing the file's text
+	}
 	sc.Plan, sc.PlanClass = simio.GenPlan(r, len(sc.Stdin), []int{r.Intn(len(sc.Stdin) + 1)})
 	return d
 }
